@@ -60,7 +60,7 @@ RTDIR := $(shell clang -print-resource-dir)/lib/linux
 LIBS := -shared-libasan -Wl,-rpath,$(RTDIR) -lexpat -lpthread -lsystemd
 
 .PHONY: all clean
-all: $(B)/simbus $(B)/simlib
+all: $(B)/simbus $(B)/simlib $(B)/simhelper
 
 $(B)/obj/dbus/%.o: $(REPO)/dbus/%.c $(CFG)/config.h
 	@mkdir -p $(dir $@)
@@ -76,6 +76,14 @@ $(B)/obj/sim/%.o: sim/%.cc
 
 $(B)/simbus: $(DBUS_OBJS) $(BUS_OBJS) $(SIM_COMMON_OBJS) $(SIMBUS_OBJS)
 	$(CXX) $(SAN) $(OPT) -o $@ $^ $(WRAPFLAGS) $(LIBS)
+
+HELPER_OBJS := $(addprefix $(B)/obj/helper/,$(addsuffix .o,$(HELPER_SRCS)))
+$(B)/obj/helper/%.o: $(REPO)/bus/%.c $(CFG)/config.h
+	@mkdir -p $(dir $@)
+	$(CC) $(BUS_CFLAGS) -DACTIVATION_LAUNCHER_TEST -MMD -MP -c $< -o $@
+
+$(B)/simhelper: $(DBUS_OBJS) $(HELPER_OBJS) $(SIM_COMMON_OBJS) $(B)/obj/sim/harness/simhelper.o
+	$(CXX) $(SAN) $(OPT) -o $@ $^ $(WRAPFLAGS) -Wl,--wrap=execv $(LIBS)
 
 $(B)/simlib: $(DBUS_OBJS) $(SIM_COMMON_OBJS) $(SIMLIB_OBJS)
 	$(CXX) $(SAN) $(OPT) -o $@ $^ $(WRAPFLAGS) $(THREAD_WRAPFLAGS) $(LIBS)
